@@ -265,7 +265,9 @@ class RegistryEngine:
                 ops.append({"op": "deregister", "key": rng.choice(keys)})
             elif r < 0.9:
                 kind = rng.choice(["valid", "valid", "valid", "missing",
-                                   "syntax", "raises", "importerror"])
+                                   "syntax", "raises", "importerror",
+                                   "raises_pathedit",
+                                   "importerror_pathedit"])
                 mutant = rng.choice(muts_anc) if (
                     kind == "valid" and rng.random() < 0.25) else None
                 ops.append({"op": "load", "spec": gen_spec(mutant),
@@ -431,6 +433,10 @@ class RegistryEngine:
                         ok_classes.append(ZeroDivisionError)
                     elif op["file"] == "importerror":
                         ok_classes.append(ImportError)
+                    elif op["file"] == "raises_pathedit":
+                        ok_classes.append(ZeroDivisionError)
+                    elif op["file"] == "importerror_pathedit":
+                        ok_classes.append(ImportError)
                     if exc is None:
                         violation = viol(
                             "M2", "unimportable-accepted", feats,
@@ -569,6 +575,16 @@ class RegistryEngine:
         elif kind == "importerror":
             path = d / (op.get("stem", "modela") + "_imp.py")
             path.write_text("import a_module_that_does_not_exist_sim\n")
+        elif kind in ("raises_pathedit", "importerror_pathedit"):
+            # a model file that puts its helper directory on the import
+            # path itself and then fails
+            path = d / (op.get("stem", "modela") + "_pe.py")
+            helper = d / "helpers"
+            how = "insert(0, " if op.get("dwb") else "append("
+            fail = "x = 1 / 0" if kind == "raises_pathedit" else \
+                "import a_module_that_does_not_exist_sim"
+            path.write_text(f"import sys\nsys.path.{how}{str(helper)!r})\n"
+                            f"{fail}\n")
         else:
             path.write_text(render(spec))
             # make sure an edited file is not served from a stale bytecode
